@@ -192,6 +192,11 @@ class ModelsOps:
                 return BoolV((not t) if sym == "==" else t)
             return OpaqueV("strcmp")
         if isinstance(l, EnumV) or isinstance(r, EnumV):
+            for e in (l, r):
+                if isinstance(e, EnumV) and e.member is None:
+                    from .tables import rounding_modes_from_dependency
+                    ms = rounding_modes_from_dependency()
+                    e.member = ms[I.choose(len(ms), "default-rounding-mode", ms)]
             if isinstance(l, EnumV) and isinstance(r, EnumV):
                 res = l.member == r.member
                 return BoolV(res if sym == "==" else not res)
@@ -269,6 +274,19 @@ class ModelsOps:
             if not cmp:
                 self.flag("float-arith", node, f"{l.kind} with {r.kind}")
 
+    def simplify_numden(self, rf: RF) -> RF:
+        """numerator(x)/denominator(x) == x"""
+        rf = self.st.norm(rf)
+        ats = list(rf.atoms())
+        if len(ats) == 2 and all(a[0] == "fn" for a in ats):
+            num = [a for a in ats if a[1] == "numerator"]
+            den = [a for a in ats if a[1] == "denominator"]
+            if num and den and rf.equals(RF.atom(num[0]) / RF.atom(den[0])):
+                x, y = self.st.norm(self.st.rnd_args[num[0][2]]), self.st.norm(self.st.rnd_args[den[0][2]])
+                if x.equals(y):
+                    return x
+        return rf
+
     def num_binop(self, op, l: Num, r: Num, node) -> Num:
         self.check_float_mix(l, r, node)
         kinds = {l.kind, r.kind}
@@ -293,7 +311,7 @@ class ModelsOps:
                     return Num(rf, "float")
             elif op in (ast.Mod, ast.FloorDiv):
                 nm = "mod" if op is ast.Mod else "floordiv"
-                rf = self.ufn(nm, l.rf / r.rf)
+                rf = self.ufn(nm, self.simplify_numden(l.rf / r.rf))
             else:
                 self.I.unsupported(node, "numeric operator")
         except PolyError as e:
@@ -649,9 +667,9 @@ class ModelsOps:
                 return v
             return IterV(seq)
         if name == "get_dflt_rounding_mode":
-            o = OpaqueV("dflt_rounding_mode")
-            o.kinds = {"ROUNDING"}
-            return o
+            e = EnumV("ROUNDING", None)
+            e.origin = "default"
+            return e
         if name.startswith("operator."):
             opn = name.split(".")[1]
             amap = {"lt": ast.Lt, "le": ast.LtE, "gt": ast.Gt, "ge": ast.GtE, "eq": ast.Eq, "ne": ast.NotEq}
@@ -677,8 +695,9 @@ class ModelsOps:
                 return Num(self.ufn(name, key), "int" if all(a.kind in ("int", "bool") for a in args) else "exact")
             return OpaqueV(name)
         if name == "divmod":
-            q = Num(self.ufn("floordiv", args[0].rf / args[1].rf), "int")
-            r = Num(self.ufn("mod", args[0].rf / args[1].rf), "int")
+            ratio = self.simplify_numden(args[0].rf / args[1].rf)
+            q = Num(self.ufn("floordiv", ratio), "int")
+            r = Num(self.ufn("mod", ratio), "int")
             return TupleV([q, r])
         if name in ("sorted", "map", "zip", "enumerate", "range", "filter"):
             self.st.effects.append((name, args, kwargs, self.where(node)))
